@@ -1,7 +1,7 @@
 """Per-property and per-suite configuration of the orchestrator."""
 
 # .vo files Extract.v depends on (built before extraction)
-EXTRACT_DEPS = ['Codec/FilterCase.vo', 'Agent/ReasmRs.vo', 'Agent/Model.vo', 'Agent/Monitors.vo', 'Codec/WireMon.vo', 'Codec/EncodeMsg.vo', 'Proofs/ArcHeapProofs.vo', 'Codec/AttrValue.vo']
+EXTRACT_DEPS = ['Codec/FilterCase.vo', 'Agent/ReasmRs.vo', 'Agent/Model.vo', 'Agent/Monitors.vo', 'Codec/WireMon.vo', 'Codec/EncodeMsg.vo', 'Proofs/ArcHeapProofs.vo', 'Codec/AttrValue.vo', 'Codec/WireFull.vo', 'Codec/Message.vo']
 
 SUITES = {
     'attrval': dict(bin='attrval', nontrivial=r'^C [DE] '),
@@ -13,6 +13,7 @@ SUITES = {
     'encbuf': dict(bin='encbuf', nontrivial=r'^C \d+ \d \S+ \d+ \S+ [pmsf]'),
     'encbuf-release': dict(bin='encbuf', driver='encbuf', release=True, nontrivial=r'^C \d+ \d \S+ \d+ \S+ [pmsf]'),
     'valueapi': dict(bin='valueapi', nontrivial=r'^C (A|S \S \S*c)'),
+    'codecrt': dict(bin='codecrt', nontrivial=r'^C \d+ \d \S+ v'),
     'reasm': dict(bin='reasm', nontrivial=r'^C \d+ \S+ \S+'),
 }
 
@@ -68,8 +69,8 @@ PROPS = {
                      'instants passed to the client are monotone'],
     ),
     'C03': dict(
-        suites=['agent', 'reasm', 'wire'],
-        monitors=['C03', 'C03reasm', 'C03dec', 'C03prefix'],
+        suites=['agent', 'reasm', 'wire', 'attrval'],
+        monitors=['C03', 'C03reasm', 'C03dec', 'C03prefix', 'C03val'],
         rule='suites agent and reasm (see C05, C16): every call is made under catch_unwind; a panic is the result PANIC',
         assumptions=['external crates (PRECIS tables, pest runtime, base64, hash crates) are total functions in the model'],
     ),
@@ -97,4 +98,13 @@ PROPS = {
                      'cookie-prefix and boundary-length (507..510, 762..764, 64000, 64001) alphabets for every string constructor and key derivation; distinct = distinct records; '
                      'non-trivial = scripts with a clone, and every API sweep',
                 assumptions=['Arc is a hand-written model (reference-counted heap); documented panicking accessors (expect_*) are not called on mismatching variants']),
+    'C01': dict(suites=['codecrt', 'attrval', 'wire'], monitors=['C01'],
+                rule='suite codecrt: messages of 0-12 attributes over all 35 value-carrying kinds (values from the per-kind generators: boundary lengths 0/1/508/509, all lengths mod 4, '
+                     'both address families, error codes 300-699, ...), every method 0x000-0xFFF (boundaries over-represented) x 4 classes, random transaction ids, every legal integrity / '
+                     'fingerprint tail; encoded and decoded by stun-rs, compared byte for byte (md5) and value for value with the Gallina codec; plus quoted-string constructor probes; '
+                     'suite attrval: per-kind value decode / encode records (valid, mutated, random); suite wire: see C04; distinct = distinct records; non-trivial = at least one attribute',
+                assumptions=['PRECIS OpaqueString is modelled on printable ASCII only (non-ASCII user names are UNMODELLED: compared by the monitor only)']),
+    'C02': dict(suites=['attrval', 'codecrt'], monitors=['C02'],
+                rule='suites attrval and codecrt (see C01): every value and every message the implementation encodes is compared byte for byte with the Gallina reference codec',
+                assumptions=['the reference codec is the Gallina model (written from the code and the RFCs) plus the RFC layout theorems of Props/C02.v; type codes are part of every compared record']),
 }
